@@ -526,7 +526,11 @@ func (s *scanner) ReadName() (Name, error) {
 			}
 		}
 		if b == '#' {
-			if b, ok := s.tryHex(); ok {
+			b, ok, err := s.tryHex()
+			if err != nil {
+				return "", err
+			}
+			if ok {
 				res = append(res, b)
 				continue
 			}
@@ -544,19 +548,23 @@ func (s *scanner) ReadName() (Name, error) {
 
 // tryHex peeks at "#" and the two bytes after it. If both are valid hex
 // digits it consumes all three bytes and returns the decoded byte. Otherwise
-// it returns (0, false) without consuming.
-func (s *scanner) tryHex() (byte, bool) {
-	buf, _ := s.PeekN(3)
+// it returns (0, false) without consuming.  A read error (as opposed to the
+// end of the input) is reported.
+func (s *scanner) tryHex() (byte, bool, error) {
+	buf, err := s.PeekN(3)
+	if err != nil {
+		return 0, false, err
+	}
 	if len(buf) != 3 {
-		return 0, false
+		return 0, false, nil
 	}
 	hi := hexDigit(buf[1])
 	lo := hexDigit(buf[2])
 	if hi == 255 || lo == 255 {
-		return 0, false
+		return 0, false, nil
 	}
 	s.pos += 3
-	return hi<<4 | lo, true
+	return hi<<4 | lo, true, nil
 }
 
 func hexDigit(c byte) byte {
